@@ -178,3 +178,17 @@ _run_before_r15_9 = run
 def run(ctx):
     _run_before_r15_9(ctx)
     ctx.guard(r15_9)
+
+
+_run_before_r15_10 = run
+
+
+def run(ctx):
+    _run_before_r15_10(ctx)
+    # whole solves with the real steps, as canonical forms (solver_replay.py)
+    from . import solver_replay
+    ctx.guard(solver_replay.r15_10)
+
+
+EXPLANATION = EXPLANATION + " " + (
+    'R15.10 (solver_replay.py, see C12): reversible Heun (all four noise types) forward over two and three whole steps, then the same solver on the negated, time-reversed SDE (wrappers over the same opaque F, G) driven by the real ReverseBrownian.__call__ over the same opaque path, from the final state with the negated final (f, g) extras; every forward state must be returned as a polynomial identity.')
